@@ -53,6 +53,13 @@ def cases(tier, seed):
     # evaluation-scale batches: beam rows beyond 2**15 (index arithmetic over batch x beam)
     for name, n, B, W in (("tsp", 6, 6600, 6), ("cvrp", 5, 8300, 5)) if q else (("tsp", 6, 6600, 6), ("cvrp", 5, 8300, 5), ("tsp", 20, 1800, 20)):
         out.append(dict(env=name, n=n, B=B, W=W, select_best=bool(B % 200), s=rnd.randrange(10**6), wseed=0, big=True))
+    # rows without any feasible first customer next to ordinary rows (OP out of reach, SVRP first technician under-skilled)
+    for name in ("op", "svrp"):
+        for n in ((6, 9) if q else (5, 6, 10)):
+            for W in (2, 3, 5):
+                for B in ((2, 3) if q else (1, 2, 3, 5)):
+                    for sb in (False, True):
+                        out.append(dict(env=name, n=n, B=B, W=W, select_best=sb, s=rnd.randrange(10**6), wseed=rnd.randrange(4), no_start=True))
     # the non-autoregressive (heat-map) policy machinery under beam search
     for name in ("tsp", "cvrp", "op"):
         for n in ((6, 9) if q else (5, 6, 8, 10)):
